@@ -60,7 +60,7 @@ def run(ctx):
         "reads use \\the, macro expansion and \\fontname\\font; the harness's undefined-command handler reports <UNDEF:name>",
     ]
     # ---- the composed model: whole programs over the full primitive set (TexVM.tla) ------------
-    texvm_part(ctx, 6000 if ctx.quick else 120000, 101)
+    texvm_part(ctx, 6000 if ctx.quick else 80000, 101)
 
 
 def selftest(ctx):
